@@ -16,6 +16,15 @@ DECS = [0.0, 30.0, -30.0, 60.0, -60.0, 80.0, -80.0, 85.0, -85.0, 88.0, -88.0, 89
 HIGH = [60.0, 75.0, 80.0, 84.0, 86.0, 88.0, -80.0, -86.0, 89.0, -89.3]
 DECLIM = 90.0 - 1e-9
 RA_TOP = math.nextafter(360.0, 0.0)
+# exact boundary values of RA: the ends of [0, 360) and the values that become exactly 360.0 when one of the six trial
+# offsets (0, 60, ..., 300) of chunks.rarange is added.  360.0 itself is outside the property's domain for C04.
+BOUNDARY_RA = [0.0, RA_TOP, 60.0, 120.0, 180.0, 240.0, 300.0]
+BOUNDARY_L2 = ('clusters', 'seam', 'allsky', 'wide2', 'shells', 'dups', 'polar', 'clamped', 'maxmatch', 'guided', 'guided_pad',
+               'guided_wrap', 'degenerate')           # list 2 never influences the chunk grid
+BOUNDARY_L1 = ('allsky', 'polar', 'guided_wrap')      # list 1 already all around the sky
+# dense class: list-2 sizes around implementation-typical block sizes, all of them in ONE chunk
+DENSE_SIZES = [2 ** k + d for k in range(8, 18) for d in (-1, 0, 1)]
+DENSE_QUICK = [65537, 131073, 257, 511, 1025, 4097, 16385, 32769, 256, 8191]
 CS_FACT = [1.01, 1.05, 1.2, 1.5, 2.0, 4.0, 4.0, 8.0, 16.0, 64.0]
 
 
@@ -96,7 +105,10 @@ class C04(Check):
             'leaves behind (e.g. the numpy error state) is seen by the next call.  Class flavours: whole-degree lattice '
             'positions handed over as int64/int32/int16/unsigned, float32, big-endian, strided, reversed-view and '
             'read-only arrays (RA only, Dec only, one list, all four), judged by the same oracle (band max(1e-5 rel, '
-            '3e-3 deg) when numpy converts the argument to radians in float32), arguments compared bytewise afterwards.')
+            '3e-3 deg) when numpy converts the argument to radians in float32), arguments compared bytewise afterwards.  '
+            'Class dense: 2**k, 2**k +- 1 (k = 8..17) list-2 points and 2-5 list-1 points in ONE chunk (quick: 10 sizes incl. '
+            '65537 and 131073).  Exact boundary RAs (0.0, nextafter(360,0), 60..300 = 360 - trial offset) are injected into '
+            'list 2 of 20 % of the cases of most classes and into all-around first lists.')
     ASSUMPTIONS = ['separations from a long-double chord formula; pairs within max(1e-9 relative, 1e-11 deg) of the match '
                    'length are undecided (gcirc carries <= 5e-14 deg absolute error from the RA subtraction in radians)',
                    'reported distance must agree with the reference within max(1e-9 relative, 1e-11 deg)',
@@ -106,7 +118,8 @@ class C04(Check):
                          'multi_slice_arm', 'outside_bounds_arm', 'polar_single_cell_slice', 'maxmatch_pos_calls',
                          'maxmatch_blocked_pairs', 'edge_close_points', 'perm_variants', 'chunksize_variants',
                          'canary_sequences', 'canary_inputs_judged', 'flavour_calls', 'flavour_int_calls', 'flavour_single_precision_calls',
-                         'flavour_layout_calls', 'flavour_args_unchanged_checks', 'flavour_true_pairs', 'equal_ra_list1_cases', 'equal_dec_list1_cases')
+                         'flavour_layout_calls', 'flavour_args_unchanged_checks', 'flavour_true_pairs',
+                         'boundary_ra_points', 'dense_cases', 'dense_cases_above_65536_in_one_chunk', 'dense_true_pairs', 'equal_ra_list1_cases', 'equal_dec_list1_cases')
 
     # ------------------------------------------------------------------ wiring
     def setup(self):
@@ -155,6 +168,7 @@ class C04(Check):
             'polar': 240 if q else 5000,
             'canary_inputs': len(CANARIES),
             'flavours': 400 if q else 8000,
+            'dense': len(DENSE_QUICK) if q else 4 * len(DENSE_SIZES),
             'degenerate': 300 if q else 6000,
         }
 
@@ -206,7 +220,43 @@ class C04(Check):
         case['cls'] = cls
         if 'variants' not in case:
             self._variants(rng, case)
+        # exact boundary values of RA (drawn last, so that everything above is unchanged by this)
+        if cls in BOUNDARY_L2 and rng.random() < 0.2:
+            for _ in range(rng.randint(1, 2)):
+                case['ra2'][rng.randrange(len(case['ra2']))] = rng.choice(BOUNDARY_RA)
+        if cls in BOUNDARY_L1 and rng.random() < 0.3:
+            case['ra1'][rng.randrange(len(case['ra1']))] = rng.choice(BOUNDARY_RA)
         return case
+
+    def gen_dense(self, rng, nr, i):
+        """a crowded field: n2 = 2**k, 2**k +- 1 (k = 8..17) list-2 points within a fraction of a degree and an explicit
+        chunk size much larger than the field, so that ONE chunk holds all of them together with the handful of list-1
+        points.  Only the recipe is stored (seed, sizes, centre); run() materialises it with numpy's default_rng."""
+        n2 = DENSE_QUICK[i % len(DENSE_QUICK)] if self.tier == 'quick' else DENSE_SIZES[i % len(DENSE_SIZES)]
+        r = rng.choice([0.1, 0.15, 0.3])
+        target = rng.choice([20.0, 60.0, 150.0])          # expected number of partners of a list-1 point
+        m = min(r * math.sqrt(target / n2), 0.5 * r)
+        return {'m': m, 'cs': rng.choice([1.0, 1.0, 2.5]), 'k': rng.choice([0, 0, 0, 1, 2]), 'variants': [],
+                'dense': {'seed': rng.getrandbits(48), 'n1': rng.randint(2, 5), 'n2': n2, 'r': r,
+                          'ra0': rng.choice([77.7, 123.4, 200.0, 301.0]), 'dec0': rng.choice([-30.0, 0.0, 45.0, 70.0])}}
+
+    @staticmethod
+    def _materialise(case):
+        d = case.get('dense')
+        if d is None:
+            return {k: np.array(case[k], dtype='d') for k in ('ra1', 'dec1', 'ra2', 'dec2')}
+        g = np.random.default_rng(d['seed'])
+        c0 = math.cos(math.radians(d['dec0']))
+
+        def disc(n, rad):
+            rr = rad * np.sqrt(g.uniform(0, 1, n))
+            th = g.uniform(0, 2 * math.pi, n)
+            ra = np.mod(d['ra0'] + rr * np.cos(th) / c0, 360.0)
+            ra[ra >= 360.0] = 0.0
+            return ra, d['dec0'] + rr * np.sin(th)
+        ra2, dec2 = disc(d['n2'], d['r'])
+        ra1, dec1 = disc(d['n1'], 0.8 * d['r'])
+        return {'ra1': ra1, 'dec1': dec1, 'ra2': ra2, 'dec2': dec2}
 
     def gen_canary_inputs(self, rng, nr, i):
         """the canary inputs as ordinary cases, so that their answers are also judged by the oracle on the tree under test"""
@@ -232,9 +282,9 @@ class C04(Check):
         flav = []
         for _ in range(3):
             f = rng.choice(names)
-            which = rng.choice(['ra1', 'dec1', 'list1', 'list2', 'ra2', 'dec2', 'all', 'ra_both'])
+            which = rng.choice(['ra1', 'dec1', 'list1', 'list2', 'ra2', 'dec2', 'all', 'all', 'ra_both', 'dec_both', 'dec_both'])
             args = {'ra1': ['ra1'], 'dec1': ['dec1'], 'list1': ['ra1', 'dec1'], 'list2': ['ra2', 'dec2'], 'ra2': ['ra2'],
-                    'dec2': ['dec2'], 'all': ['ra1', 'dec1', 'ra2', 'dec2'], 'ra_both': ['ra1', 'ra2']}[which]
+                    'dec2': ['dec2'], 'all': ['ra1', 'dec1', 'ra2', 'dec2'], 'ra_both': ['ra1', 'ra2'], 'dec_both': ['dec1', 'dec2']}[which]
             spec = {}
             for a in args:
                 neg = min(p[1] for p in (l1 if a.endswith('1') else l2)) < 0
@@ -783,10 +833,10 @@ class C04(Check):
         return res
 
     def run(self, case, out):
-        ra1 = np.array(case['ra1'], dtype='d')
-        dec1 = np.array(case['dec1'], dtype='d')
-        ra2 = np.array(case['ra2'], dtype='d')
-        dec2 = np.array(case['dec2'], dtype='d')
+        mc = self._materialise(case)
+        ra1, dec1, ra2, dec2 = mc['ra1'], mc['dec1'], mc['ra2'], mc['dec2']
+        dense = 'dense' in case
+        case = dict(case, **mc) if dense else case          # the oracle's witness descriptions index the coordinates
         m = float(case['m'])
         n1, n2 = ra1.size, ra2.size
         with np.errstate(all='ignore'):      # an error state left behind by an earlier call must not reach the reference
@@ -810,6 +860,8 @@ class C04(Check):
             out.count('equal_dec_list1_cases')
         if n2 >= 2 and np.all(ra2 == ra2[0]):
             out.count('equal_ra_list2_cases')
+        if not dense:
+            out.count('boundary_ra_points', int(np.isin(ra1, BOUNDARY_RA).sum() + np.isin(ra2, BOUNDARY_RA).sum()))
         nonpair_near = int((~maybe & (Sf < 2.0 * m)).sum())
         runs = [{'p1': None, 'p2': None, 'cs': case['cs'], 'k': case['k']}] + list(case.get('variants', []))
         cross = 0
@@ -820,7 +872,17 @@ class C04(Check):
             self._chunk = None
             res = self.SG.spherematch(ra1[p1], dec1[p1], ra2[p2], dec2[p2], m, chunksize=v['cs'], maxmatch=k)
             tag = 'run%d(cs=%r,k=%d,perm=%s)' % (vi, v['cs'], k, v['p1'] is not None or v['p2'] is not None)
-            if vi == 0:
+            if vi == 0 and dense:
+                # per-point geometry counters would cost as much as the call; only the chunk populations are read
+                c = self._chunk
+                pop = max((len(cell) for row in c.chunkList for cell in row), default=0) if c is not None else 0
+                out.count('dense_cases')
+                out.count('dense_true_pairs', nsure)
+                out.info['dense_max_chunk_population'] = pop
+                if pop > 65536:
+                    out.count('dense_cases_above_65536_in_one_chunk')
+                cross = 1 if pop >= n2 else 0
+            elif vi == 0:
                 cross = self._geometry_counters(out, ra1, dec1, ra2, dec2, sure, m)
             else:
                 if v['p1'] is not None or v['p2'] is not None:
@@ -994,6 +1056,8 @@ class C04(Check):
 
     def summarise(self, case):
         c = dict(case)
+        if 'dense' in case:
+            return c
         for k in ('ra1', 'dec1', 'ra2', 'dec2'):
             c[k] = case[k][:6] + (['... %d values' % len(case[k])] if len(case[k]) > 6 else [])
         return c
